@@ -1,8 +1,8 @@
 import Driver.RepoTraceIO
 /-!
 Driver for C11 (stream: harness/main/c11.go). One case = one `restic backup` run, complete,
-cut at a crash point, with a persistent backend error, or cancelled. Records:
-  mode <complete|crash|fail|cancel> <at> <n>
+cut at a crash point, with a persistent backend error, or cancelled, or with a persistent Load error. Records:
+  mode <complete|crash|fail|cancel|loadfail> <at> <n>
   last <kind> <count>
   r0pack / r0index / r0snap        repository before the run
   ev w <event>                     recorded backend trace
